@@ -165,6 +165,15 @@ ApplyOp(vm, op, env) ==
                   pn == E2Add(<<s[10], s[9]>>, E2Mul(al, E2Sub(tx, <<wz[1], wz[2]>>)))
                   rn == E2Add(<<s[12], s[11]>>, E2Mul(al, E2Sub(tx, <<wz[3], wz[4]>>)))
               IN OkVm(SetTop(vm, 15, <<s[8]>> \o SubSeq(s, 1, 7) \o <<pn[2], pn[1], rn[2], rn[1], s[13], FAdd(zp, F1), FAdd(ap, F1)>>))
+    \* FRIE2F4 (crypto_ops.md): folds four query values; the first ten positions of the next row are degree-reduction
+    \* intermediates ("garbage") and the folded value depends on constants of the FRI domain, so positions 0 .. 14 are taken from
+    \* the recording (the AIR is what judges them, C03); what the specification fixes is the domain segment check, the left
+    \* shift from position 16, and the documented results poe^4, f_pos and the advanced layer pointer
+    [] o = "FRIE2F4" ->
+         IF s[10] \notin {F0, F1, F2, Small(3)} THEN FailVm("InvalidFriDomainSegment")
+         ELSE LET n == env.next IN
+              IF n[11] # FAdd(s[16], F2) \/ n[12] # FSq(FSq(s[11])) \/ n[13] # s[9] THEN FailVm("FriResultMismatch")
+              ELSE OkVm(SetTop(PopN(vm, 1), 15, SubSeq(n, 1, 15)))
     [] o = "MPVERIFY" -> IF ~IsSmall(s[5]) THEN FailVm("InvalidTreeDepth") ELSE OkVm([vm EXCEPT !.hrows = @ + 8 * s[5][1]])
     [] o = "MRUPDATE" -> IF ~IsSmall(s[5]) THEN FailVm("InvalidTreeDepth")
                          ELSE OkVm([SetTop(vm, 4, SubSeq(env.next, 1, 4)) EXCEPT !.hrows = @ + 16 * s[5][1]])
@@ -259,6 +268,9 @@ Start(vm, nd, lb, prog) ==
          LET issys == nd.k = "syscall"
              pi == LookupProc(prog.procs, nd.f)
          IN IF issys /\ ~(\E i \in 1 .. Len(prog.kernel) : prog.kernel[i] = nd.f) THEN FailVm("SyscallTargetNotInKernel")
+            \* execution_contexts.md: "creating a new context from within a syscall is not possible" (the assembler rules it out for
+            \* kernel modules; a dynamically invoked block may still contain a call or a syscall)
+            ELSE IF vm.insys = 1 THEN FailVm("CallInSyscall")
             ELSE IF ~nd.isdyn /\ pi = 0 THEN FailVm("CodeBlockNotFound")
             ELSE [ok |-> "ok", row |-> CtlRow(IF issys THEN "SYSCALL" ELSE "CALL", pa, nd.f \o ZeroDigest),
                   vm |-> [vm EXCEPT !.hrows = @ + 8,
